@@ -163,6 +163,11 @@ def build_variants(rng, isa, ktext, n_noise_variants):
             else:
                 spec = "%d%s%d" % (a, rng.choice("-:"), b)
             out.append(("lines", "\n".join(lines) + "\n", ["--lines", spec], renum))
+            # the same line set named in a different ORDER (and with a repeated item): still the lines in file order
+            if b - a >= 3:
+                m = rng.randrange(a + 1, b)
+                spec2 = "%d:%d,%d-%d,%d" % (m, b, a, m - 1, a)
+                out.append(("lines-unordered", "\n".join(lines) + "\n", ["--lines", spec2], renum))
     for v in range(n_noise_variants):
         sm = G.marker(rng, isa, "start", rng.choice(styles))
         em = G.marker(rng, isa, "end", rng.choice(styles))
